@@ -377,11 +377,20 @@ func t1closureCase(o *suiteOut, line string) {
 			format = ff
 		}
 	}
-	src := unusualFont(newRng(seed))
-	x, err, pan := writeFont(src, type1.FormatPFA)
-	if err != nil || pan != "" {
-		o.emit(line, "skip", false)
-		return
+	var x []byte
+	var err error
+	var pan string
+	if f[2] == "model" {
+		// a font only a foreign writer produces: rendered by the harness's independent writer
+		rr := newRng(seed)
+		x, _ = randModelFont(rr).render(rr)
+	} else {
+		src := unusualFont(newRng(seed))
+		x, err, pan = writeFont(src, type1.FormatPFA)
+		if err != nil || pan != "" {
+			o.emit(line, "skip", false)
+			return
+		}
 	}
 	f1, err, pan := readFont(x)
 	if pan != "" {
@@ -440,10 +449,11 @@ func suiteT1closure(o *suiteOut, r *rng, tier string, n int) {
 		seed := r.next() % 1000000007
 		for _, ff := range allFormats {
 			t1closureCase(o, fmt.Sprintf("t1closure %d frac %s", seed, formatName(ff)))
+			t1closureCase(o, fmt.Sprintf("t1closure %d model %s", seed, formatName(ff)))
 			o.count("format " + formatName(ff))
 		}
 	}
-	o.notes = append(o.notes, "fonts with unusual but legal content (fractional widths and side bearings, sbw, odd hint counts, encodings naming absent glyphs, missing .notdef, BlueScale next to its default) are read, written in each format, re-read twice; direct oracles: write never fails, F1~F2 up to rounding / 1/214 / BlueScale snap, F2 == F3")
+	o.notes = append(o.notes, "fonts with unusual but legal content (fractional widths and side bearings, sbw, odd hint counts, encodings naming absent glyphs, missing .notdef, BlueScale next to its default), and fonts rendered by the independent writer (every Private entry at and off its default, glyph names with bytes above 127, contours of up to 40 fractional segments, seac, flex, hint replacement), are read, written in each format, re-read twice; direct oracles: write never fails, F1~F2 up to rounding / 1/214 / BlueScale snap, F2 == F3")
 }
 
 func init() {
